@@ -353,6 +353,13 @@ package ipfslog
 //@   ensures index == 0 && len(entries) > 0 ==> result == entries
 //@   ensures len(result) <= len(entries)
 
+//@ func lastEntries
+//@   pure
+//@   ensures [last-n-entries] 0 < n && n < len(entries) ==> result == entries[len(entries) - n:]
+//@   ensures n >= len(entries) && n > 0 ==> result == entries
+//@   ensures n <= 0 ==> len(result) == 0
+//@   ensures len(result) <= len(entries) && (n >= 0 ==> len(result) <= n)
+
 //@ func entrySliceRange
 //@   pure
 //@   ensures len(result) <= len(entries)
@@ -393,3 +400,12 @@ package ipfslog
 //@   replay loadlimit
 //@   loop 0
 //@     invariant len(hashes) == $k && (hashes == nil || fresh(hashes))
+//@   loop 1
+//@     invariant fresh(isSource)
+//@     invariant forall i int :: 0 <= i && i < $k ==> has(isSource, ehash(sourceEntries[i])) && isSource[ehash(sourceEntries[i])]
+//@   loop 2
+//@     invariant fresh(isSource) && validSlice(result) && validSlice(sliced) && (result == nil || fresh(result) || result == missingSourceEntries)
+//@     invariant forall i int :: 0 <= i && i < len(sourceEntries) ==> has(isSource, ehash(sourceEntries[i])) && isSource[ehash(sourceEntries[i])]
+//@     invariant 0 <= toDrop && toDrop <= len(missingSourceEntries) && len(result) == len(missingSourceEntries) + $k - (len(missingSourceEntries) - toDrop)
+//@     invariant forall i int :: 0 <= i && i < len(missingSourceEntries) ==> result[i] == missingSourceEntries[i]
+//@     invariant forall j int :: 0 <= j && j < $k && has(isSource, ehash(sliced[j])) && isSource[ehash(sliced[j])] ==> exists q int :: 0 <= q && q < len(result) && result[q] == sliced[j]
